@@ -88,6 +88,9 @@ def symdel(seqs: OneOf(Seq(Str, "list"), Seq(Str, "ndarray"), SeriesT(Str, "int"
            seqs2: OneOf(NoneType, Seq(Str, "list"), SeriesT(Str, "int"), SameAs("seqs")), progress: Const(False)):
     raises("AssertionError", when=not valid_search_args(seqs, max_edits, max_returns, n_cpu, custom_distance,
                                                          max_custom_distance, output_type, seqs2))
+    # C10: the argument check runs on the caller's own objects (not on converted copies, which NumPy would have coerced)
+    validates("pyrepseq.nn._check_common_input", seqs=seqs, max_edits=max_edits, max_returns=max_returns, n_cpu=n_cpu,
+              custom_distance=custom_distance, max_cust_dist=max_custom_distance, output_type=output_type, seqs2=seqs2)
     # --- one collection: ordered pairs of distinct positions ---------------------------------------------
     ensures(forall_in(triplets_of(result), lambda t: 0 <= t[0] and t[0] < len(seqs) and 0 <= t[1] and t[1] < len(seqs) and t[0] != t[1]
                       and is_neighbor(seqs[t[0]], seqs[t[1]], custom_distance, max_edits, max_custom_distance)
@@ -278,6 +281,9 @@ def hash_based(seqs: OneOf(Seq(Str, "list"), Seq(Str, "ndarray"), SeriesT(Str, "
     requires(all_over(seqs, "ACDEFGHIKLMNPQRSTVWY"))
     raises("AssertionError", when=not valid_search_args(seqs, max_edits, max_returns, n_cpu, custom_distance,
                                                          max_custom_distance, output_type, None))
+    # C10: the argument check runs on the caller's own objects (not on converted copies, which NumPy would have coerced)
+    validates("pyrepseq.nn._check_common_input", seqs=seqs, max_edits=max_edits, max_returns=max_returns, n_cpu=n_cpu,
+              custom_distance=custom_distance, max_cust_dist=max_custom_distance, output_type=output_type)
     # the same triplet set as the default engine (symdel's specification), in the requested form
     ensures(bag_equal(triplets_of(result), neighbor_triplets(
         seqs, seqs, lambda a, b: is_neighbor(a, b, custom_distance, max_edits, max_custom_distance),
